@@ -44,6 +44,37 @@ def gen_fast_c07(g, tier):
 
 def hexes(xs): return ' '.join(dhex(x) for x in xs)
 
+# the coordinator on the real BoxMuller generator, shared with other consumers (scripted drand48)
+GROUP_REAL = dict(name='simreal', sources=['h_simreal.cpp'], repo_sources=['mode.cpp', 'covariant.cpp', 'util/BoxMuller.C', 'util/Pauli.C', 'util/random.C', 'util/true_math.c'],
+                  driver=None, libs=(), replay_prefix=('o.c08.shared',))
+
+
+def gen_real_c08(g, tier):
+    """joint draws from a generator other consumers also draw from: every interleaving of requests from A, from B and single
+    draws by a third party (x) up to length 5 on one configuration, then random long ones"""
+    import itertools
+    cs = []
+    def line(pat, b0, b1, frac):
+        ls0, ls1 = math.sqrt(math.log(b0 * b0 + 1)), math.sqrt(math.log(b1 * b1 + 1))
+        lim = (math.exp(ls0 * ls1) - 1) / (b0 * b1) if frac >= 0 else -(math.exp(-ls0 * ls1) - 1) / (b0 * b1)
+        rho = frac * lim
+        need = 2 * len(pat)
+        us = [g.r.uniform(0.001, 0.999) for _ in range(4 * need + 40)]
+        return 'o.c08.shared %s %s %s %s %s' % (dhex(rho), dhex(b0), dhex(b1), pat, hexes(us))
+    maxlen = 5 if tier == 'quick' else 7
+    for n in range(1, maxlen + 1):
+        for tup in itertools.product('ABx', repeat=n):
+            pat = ''.join(tup)
+            if 'A' not in pat and 'B' not in pat: continue
+            cs.append(Case(line(pat, 0.8, 1.3, 0.6), 'orc', 'shared-generator-exhaustive-%s' % ('odd-offset' if pat.split('A')[0].split('B')[0].count('x') % 2 else 'even-offset'), check=small_hex_check(1e-9)))
+    for _ in range(60 if tier == 'quick' else 600):
+        n = g.r.randint(6, 40)
+        pat = ''.join(g.choice('AABBx') for _ in range(n))
+        if 'A' not in pat and 'B' not in pat: pat += 'A'
+        cs.append(Case(line(pat, 10 ** g.r.uniform(-1.5, 0.7), 10 ** g.r.uniform(-1.5, 0.7), g.r.uniform(-0.95, 0.95)), 'orc', 'shared-generator-random', check=small_hex_check(1e-9)))
+    return cs
+
+
 
 def accepted(s):
     """the validity test of the command-line program: abs_vect() <= I, evaluated as the code does"""
@@ -399,7 +430,9 @@ C08 = dict(
     rule='pairing: ALL interleavings of the two consumers up to total length 10 (thorough: 14) on the real coordinator with a '
          'counting draw source, plus random interleavings of length 1000..10000 with leads up to 12; (correlation, index A, '
          'index B) grid incl. both ends of the admissible interval, one ulp inside and outside; factor sequences compared bit '
-         'for bit with the model at Float; moments of the delivered pairs by 16x16 Gauss-Hermite quadrature through the deviate source',
+         'for bit with the model at Float; moments of the delivered pairs by 16x16 Gauss-Hermite quadrature through the deviate source; '
+         'the coordinator on the real Box-Muller generator shared with a third consumer (group simreal): all interleavings over '
+         '{A, B, third party} up to length 5 (thorough: 7) and random long ones against the closed form on a twin generator',
     exhaustive=False,
     trusted=['glibc exp/log/sqrt shared by harness and model', 'Gauss-Hermite quadrature (oracle only)'],
     assumptions=['bivariate Gaussian law of the two deviates'],
@@ -531,6 +564,10 @@ def gen_C05(g, tier):
         ma = '2 %s %s' % (hexes([1 - d, 0.5]), hexes([1 + d, 0.5])); mb = '3 %s %s %s' % (hexes([1 - e, 0.25]), hexes([1.0, 0.5]), hexes([1 + e, 0.25]))
         for mods in (ma + ' ' + mb, ma + ' 0', '0 ' + mb):
             cs.append(Case('o.c05.coherent %s %s %s 8 %s' % (dhex(coh), hexes(A), hexes(B), mods), 'orc', 'coherent-moments-modulated', check=coherent_mod_check(coh == 0.0)))
+    # coherent samples of two instances whose modulation is correlated from one instance to the next (zero coherence)
+    for kind, which in ([('hold', g.choice([0, 1]))] if tier == 'quick' else [('hold', 0), ('hold', 1), ('hold', 2), ('boxcar', 0), ('boxcar', 1)]):
+        A, B = pure_state(g), pure_state(g)
+        cs.append(Case('o.c05.coherentlag %s %s %s %d %s' % (hexes(A), hexes(B), kind, which, dhex(g.r.uniform(0.2, 0.9))), 'orc', 'coherent-two-instances-correlated-modulation', check=c05_small(2, 1e-11)))
     # lagged statistics with time-correlated modulation (several of these are recorded findings)
     def first_small(tol):
         def chk(vals, line):
